@@ -167,17 +167,32 @@ func getCassandraBaseType(name string) Type {
 }
 
 func getCassandraType(name string, logger StdLogger) TypeInfo {
+	return getCassandraTypeDepth(name, logger, 0)
+}
+
+// getCassandraTypeDepth is getCassandraType for a type that is nested depth levels deep in
+// the description being parsed. The text comes from the schema tables: like readTypeInfo it
+// refuses to follow a description deeper than maxTypeInfoDepth (the goroutine's stack is
+// not the limit).
+func getCassandraTypeDepth(name string, logger StdLogger, depth int) TypeInfo {
+	if depth > maxTypeInfoDepth {
+		logger.Printf("Error parsing type, it is nested deeper than %d levels\n", maxTypeInfoDepth)
+		return NativeType{
+			typ: TypeCustom,
+		}
+	}
+	depth++
 	if strings.HasPrefix(name, "frozen<") {
-		return getCassandraType(strings.TrimPrefix(name[:len(name)-1], "frozen<"), logger)
+		return getCassandraTypeDepth(strings.TrimPrefix(name[:len(name)-1], "frozen<"), logger, depth)
 	} else if strings.HasPrefix(name, "set<") {
 		return CollectionType{
 			NativeType: NativeType{typ: TypeSet},
-			Elem:       getCassandraType(strings.TrimPrefix(name[:len(name)-1], "set<"), logger),
+			Elem:       getCassandraTypeDepth(strings.TrimPrefix(name[:len(name)-1], "set<"), logger, depth),
 		}
 	} else if strings.HasPrefix(name, "list<") {
 		return CollectionType{
 			NativeType: NativeType{typ: TypeList},
-			Elem:       getCassandraType(strings.TrimPrefix(name[:len(name)-1], "list<"), logger),
+			Elem:       getCassandraTypeDepth(strings.TrimPrefix(name[:len(name)-1], "list<"), logger, depth),
 		}
 	} else if strings.HasPrefix(name, "map<") {
 		names := splitCompositeTypes(strings.TrimPrefix(name[:len(name)-1], "map<"))
@@ -189,15 +204,15 @@ func getCassandraType(name string, logger StdLogger) TypeInfo {
 		}
 		return CollectionType{
 			NativeType: NativeType{typ: TypeMap},
-			Key:        getCassandraType(names[0], logger),
-			Elem:       getCassandraType(names[1], logger),
+			Key:        getCassandraTypeDepth(names[0], logger, depth),
+			Elem:       getCassandraTypeDepth(names[1], logger, depth),
 		}
 	} else if strings.HasPrefix(name, "tuple<") {
 		names := splitCompositeTypes(strings.TrimPrefix(name[:len(name)-1], "tuple<"))
 		types := make([]TypeInfo, len(names))
 
 		for i, name := range names {
-			types[i] = getCassandraType(name, logger)
+			types[i] = getCassandraTypeDepth(name, logger, depth)
 		}
 
 		return TupleTypeInfo{
